@@ -32,8 +32,8 @@ META = {
             'Every run evaluates model and implementation on the same generated values, all truncations and '
             'length-field perturbations (vm_compute), and runs the round-trip/strictness oracle on the implementation.',
     'note': 'Trusted: Coq kernel + vm_compute; that the hand-written format terms / primitive models describe the '
-            'classes is correspondence-checked (not proved) on the generated cases; X.509 DER content, compression, '
-            'SSLv2 forms, RecordHeader2 and delegated credentials are not modelled (round-trip oracle only or excluded).',
+            'classes is correspondence-checked (not proved) on the generated cases; opaque content (X.509 / SPKI DER, the '
+            'deflate stream of CompressedCertificate) and the SSLv2 server messages are outside the model.',
     'technique': 'Rocq/Coq proof (generic over a format DSL) + vm_compute correspondence + direct round-trip oracle',
 }
 EXC = {'IndexError': 1, 'ValueError': 2, 'AssertionError': 3, 'AttributeError': 4, 'TypeError': 5,
@@ -265,6 +265,8 @@ def gen_val(f, rng, big=False):
             return gen_num(rng, inner[1], inner[2])
         if f is K.CERT12 or f is K.CERT13:
             return rng.choice(K.der_certs()[:6])
+        if f is K.SPKI:
+            return rng.choice(K.spkis())
         return gen_val(f[2], rng, big)
     if k == 'Rep':
         out = [gen_val(f[1], rng, big) for _ in range(rng.choice([0, 1, 1, 2, 3]))]
@@ -299,6 +301,32 @@ def all_ext_values(ctx, rng):
         if inner[2][0] == 'Opt':
             out.append(Tagged(t, None))
     return out
+
+
+def blobs(f, v):
+    """the opaque (DER / compressed) byte strings inside a value"""
+    k = f[0]
+    if id(f) in K.OPAQUE:
+        yield bytes(v)
+    elif k == 'Seq':
+        for x in blobs(f[1], v[0]):
+            yield x
+        for x in blobs(f[2], v[1]):
+            yield x
+    elif k == 'Bounded':
+        for x in blobs(f[2], v):
+            yield x
+    elif k == 'Rep':
+        for e in v:
+            for x in blobs(f[1], e):
+                yield x
+    elif k == 'Opt':
+        if v is not None:
+            for x in blobs(f[1], v.v):
+                yield x
+    elif k == 'Tag':
+        for x in blobs(f[2](v.t), v.v):
+            yield x
 
 
 def overflow_variants(f, v, rng, path=()):
@@ -546,14 +574,16 @@ class Run(object):
         prep = dict(rep, perturbation=kind, input=hexs(pb), mirror='reject' if m is None else 'accept',
                     impl=repr(r)[:600])
         sk = site_key(cls, site, kind)
+        if m is not None and r[0] != 'crash':
+            known = K.known_blobs()
+            if any(d not in known for d in blobs(cls.fmt, m[0])):
+                return False     # the perturbation changed DER / compressed content, which is outside the model
         if r[0] == 'crash':
             self.viol('crash:%s:%s' % (sk, r[1]), '%s: %s on a malformed input instead of a decode error (%s)' % (cls.name, r[1], kind), prep)
         elif r[0] == 'ok' and m is None:
             self.viol('lax:' + sk,
                       '%s accepts an input the framing forbids (%s): %s' % (cls.name, kind, hexs(pb)[:120]), prep)
         elif r[0] == 'reject' and m is not None:
-            if cls.ders is not None and any(d not in K.der_certs() for d in cls.ders(m[0])):
-                return False     # the perturbation damaged certificate content: X.509 DER is outside the model
             # the format accepts: is it the class's own serialisation of that value?
             try:
                 again = bytes(cls.build(m[0]).write())
@@ -719,7 +749,7 @@ def run(ctx):
         'Model/C15_Codec.v as the reading of tlslite/utils/codec.py (checked per primitive on boundary scripts every run)',
         'Model/C15_Messages.v format terms as the reading of each parse()/write() pair (checked per class every run)',
         'harness/c15_fmt.py mirror of the format language (checked against the Coq definitions on every case)',
-        'X.509 DER parsing, zlib/brotli/zstd, SSLv2 forms and delegated credentials are outside the model',
+        'X.509 / SubjectPublicKeyInfo DER parsing, zlib/brotli/zstd streams and SSLv2 server messages are outside the model',
     ]
     ctx.assumptions += [
         'wire integers are bytes 0..255 (all_bytes) -- what bytearray guarantees',
@@ -773,10 +803,10 @@ def run(ctx):
         if cls.name.startswith('Extension('):
             vals += all_ext_values(cls.ext_ctx, rng)
         for _ in range(per_class * cls.weight):
-            vals.append(cls.fix(gen_val(cls.fmt, rng, big=rng.random() < 0.3)))
+            vals.append(cls.gen(rng) if cls.gen else cls.fix(gen_val(cls.fmt, rng, big=rng.random() < 0.3)))
         for i, v in enumerate(vals):
             run_.value_case(cls, v, rng, n_coq, full=not quick and i % 4 == 0)
-            if i % 2 == 0:
+            if i % 2 == 0 and not cls.no_overflow:
                 for v2, path in list(overflow_variants(cls.fmt, v, rng))[:4 if quick else 20]:
                     run_.overflow_case(cls, cls.fix(v2), path)
     ctx.log('classes: %d class/context entries, %d values, %d perturbed inputs (impl + mirror)' % (
